@@ -573,6 +573,35 @@ func containerReads(v ssa.Value) map[string]bool {
 	return out
 }
 
+// paramsBehind: the parameters of fn (indices) that v is loaded or computed from.
+func paramsBehind(v ssa.Value, fn *ssa.Function) []int {
+	var out []int
+	seen := map[ssa.Value]bool{}
+	var walk func(v ssa.Value, depth int)
+	walk = func(v ssa.Value, depth int) {
+		if v == nil || seen[v] || depth > 12 {
+			return
+		}
+		seen[v] = true
+		if p, ok := v.(*ssa.Parameter); ok {
+			for i, q := range fn.Params {
+				if q == p {
+					out = append(out, i)
+				}
+			}
+			return
+		}
+		if ins, ok := v.(ssa.Instruction); ok {
+			for _, op := range operandsOf(ins) {
+				walk(op, depth+1)
+			}
+		}
+	}
+	walk(v, 0)
+	sort.Ints(out)
+	return out
+}
+
 type containerRead struct {
 	field string
 	base  ssa.Value
@@ -607,9 +636,25 @@ func containersOf(v ssa.Value, depth int) []containerRead {
 				for _, ret := range returnsOf(sc) {
 					for _, res := range retVals(ret) {
 						for _, cr := range containersOf(res, depth+1) {
+							mapped := false
 							for i, p := range sc.Params {
 								if cr.base == ssa.Value(p) && i < len(c.Call.Args) {
 									cr.base = copyOrigin(c.Call.Args[i])
+									mapped = true
+								}
+							}
+							if !mapped {
+								// read from an element of a list the helper was handed (`for _, f :=
+								// range fields { … f.Arguments … }`): what is compared is the list,
+								// i.e. whatever the argument was read from
+								from := paramsBehind(cr.base, sc)
+								if len(from) > 0 {
+									for _, i := range from {
+										if i < len(c.Call.Args) {
+											out = append(out, containersOf(c.Call.Args[i], depth+1)...)
+										}
+									}
+									continue
 								}
 							}
 							out = append(out, cr)
